@@ -361,15 +361,13 @@ func blame[I fp.Eq[V]](e *dyn.Expr, a, b *dyn.M, reg map[*dyn.Expr]I, name func(
 	return name(e)
 }
 
-// blameHash: a and b are Eqv-equal (by reference) but hash differently; find the innermost
-// sub-instance for which that is still true.
+// blameHash: the instance calls a and b Eqv-equal but hashes them differently; find the
+// innermost sub-instance for which that is still true.
 func blameHash(e *dyn.Expr, a, b *dyn.M, reg map[*dyn.Expr]fp.Hashable[V]) string {
 	for _, al := range dyn.Align(e, a, b) {
-		if !dyn.RefEq(al.Kid, al.A, al.B) {
-			continue
-		}
 		inst := reg[al.Kid]
-		if inst.Hash(dyn.Build(al.Kid.Dom, al.A)) != inst.Hash(dyn.Build(al.Kid.Dom, al.B)) {
+		va, vb := dyn.Build(al.Kid.Dom, al.A), dyn.Build(al.Kid.Dom, al.B)
+		if inst.Eqv(va, vb) && inst.Hash(va) != inst.Hash(vb) {
 			return blameHash(al.Kid, al.A, al.B, reg)
 		}
 	}
